@@ -105,6 +105,26 @@ let judge_c07 case impl (t : arg) =
     | Denote.Open -> count "ideal.open"
   end
 
+(* C07 on a list node whose elements are literal trees: every element has its ideal value, or the whole is an error *)
+let judge_c07_list case impl (t : arg) =
+  let els = match t with ASeq l -> Some l | AFun (_, l) -> Some l | _ -> None in
+  match els with
+  | Some l when prop = "C07" && l <> [] && Stdlib.List.for_all Denote.literal_tree l ->
+      let ideals = Stdlib.List.map Denote.ideal l in
+      if Stdlib.List.exists (fun d -> d = Denote.Open) ideals then count "ideal.list_open"
+      else if Stdlib.List.exists (fun d -> d = Denote.Error) ideals then begin
+        count "ideal.list_error";
+        if not (starts impl "err") then specfail (if starts impl "panic" then "panic" else "wrapped_instead_of_error") case impl "an error (one element leaves the range)"
+      end else begin
+        count "ideal.list_value";
+        let vals = Stdlib.List.map (fun d -> match d with Denote.Val v -> AConst v | _ -> AConst (z_of_int 0)) ideals in
+        let want = fmt_arg (match t with ASeq _ -> ASeq vals | AFun (n, _) -> AFun (n, vals) | x -> x) in
+        let n = Stdlib.String.length impl and m = Stdlib.String.length want in
+        let rec has i = i + m <= n && (Stdlib.String.sub impl i m = want || has (i + 1)) in
+        if not (starts impl "ok" && has 0) then specfail (if starts impl "panic" then "panic" else "wrong_value") case impl ("every element evaluated: " ^ want)
+      end
+  | _ -> ()
+
 let split_results (impl : string) : string list =
   (* results are separated by " ;; " *)
   let parts = ref [] and cur = Buffer.create 64 in
@@ -123,6 +143,7 @@ let () = run (fun case impl ->
       let m = fmt_simp (if simp then SimplifyModel.simplify a else SimplifyModel.neutralize a) in
       count ((if simp then "S." else "N.") ^ op_name a); note_nontrivial case;
       if m <> impl then disagree case impl m;
+      if simp then judge_c07_list case impl a;
       if prop = "C08" && starts impl "panic" then specfail "panic" case impl "no panic"
   | "E" :: rest ->
       let (envt, at) = split_semi [] rest in
@@ -132,6 +153,7 @@ let () = run (fun case impl ->
       count ("E." ^ op_name a); note_nontrivial case;
       if m <> impl then disagree case impl m;
       judge_c07 case impl a;
+      judge_c07_list case impl a;
       if prop = "C08" && starts impl "panic" then specfail "panic" case impl "no panic"
   | "T" :: rest ->
       let (a, _) = parse_arg rest in
